@@ -40,14 +40,18 @@ def model_lines(ctx, cases, lines, impl_lines):
 
 
 def mode_for(pattern):
-    """2 (construct only) when some digit run is an absurd width"""
+    """2 (construct only) when some digit run is an absurd width.  A run beyond
+    usize::MAX must become an error chunk, so it is safe to encode - provided an
+    implementation that wrapped instead would wrap to a small width too."""
     run = ""
     for ch in pattern + " ":
         if "0" <= ch <= "9":
             run += ch
         else:
-            if run and int(run) > 64:
-                return 2
+            if run:
+                v = int(run)
+                if v > 64 and not (v >= 2 ** 64 and v % 2 ** 64 <= 64):
+                    return 2
             run = ""
     return 1
 
@@ -87,7 +91,10 @@ BIG = ["18446744073709551615", "18446744073709551616", "18446744073709551614", "
        "000000000000000000000000000005", "00000000000000000000018446744073709551615",
        "00000000000000000000018446744073709551616", "340282366920938463463374607431768211456",
        "1844674407370955161", "1844674407370955162", "18446744073709551609", "18446744073709551610",
-       "18446744073709551619", "65", "64", "0"]
+       "18446744073709551619", "65", "64", "0",
+       # beyond usize::MAX, congruent to a small width mod 2^64 (encoded: a wrapping parser shows)
+       "18446744073709551621", "18446744073709551680", "55340232221128654849", "184467440737095516167",
+       "36893488147419103232", "000018446744073709551617", "340282366920938463463374607431768211459"]
 JUNK = ["}", "{", "{nope}", "{m", "{m:", "(", ")", "\\", "\\x", "{d(%Q)}", "{d(%Y)(mars)}", "{d()()()}", "{m(x)}",
         "{X}", "{X(a)(b)(c)}", "{h}", "{()()}", "{m:99999999999999999999}", "{m:5", "{(x}", "{(x)", "}}}", "{é}",
         "{m:.99999999999999999999}x", "{l:x}", "{l:5x}", "{thread_id", "{d(%", "{D}", "{R(a)(b)}", "x}y", "a(b"]
